@@ -15,6 +15,17 @@ use tiny_http::verif_rt::core::RunCfg;
 
 pub struct C15;
 
+/// This check is cheap: the quick tier already runs the full alphabet (what used to be the
+/// thorough tier); `deep` marks the extras that only the thorough tier adds.
+#[allow(dead_code)]
+fn full(_t: Tier) -> bool {
+    true
+}
+#[allow(dead_code)]
+fn deep(t: Tier) -> bool {
+    t == Tier::Thorough
+}
+
 #[derive(Clone, Copy, Debug, PartialEq)]
 enum EndKind {
     HalfClose,
@@ -81,12 +92,12 @@ fn boundary_offsets(b: &[u8]) -> Vec<usize> {
 fn items(tier: Tier) -> &'static Vec<Item> {
     static Q: OnceLock<Vec<Item>> = OnceLock::new();
     static T: OnceLock<Vec<Item>> = OnceLock::new();
-    let cell = if tier == Tier::Quick { &Q } else { &T };
+    let cell = if !full(tier) { &Q } else { &T };
     cell.get_or_init(|| {
         let mut v = Vec::new();
         for (ci, c) in the_corpus().iter().enumerate() {
-            let ks: Vec<usize> = if tier == Tier::Thorough { (0..=c.bytes.len()).collect() } else { boundary_offsets(&c.bytes) };
-            let ks: Vec<usize> = if tier == Tier::Quick && ks.len() > 80 { ks.iter().step_by(ks.len() / 80 + 1).copied().chain([c.bytes.len()]).collect() } else { ks };
+            let ks: Vec<usize> = if full(tier) { (0..=c.bytes.len()).collect() } else { boundary_offsets(&c.bytes) };
+            let ks: Vec<usize> = if !full(tier) && ks.len() > 80 { ks.iter().step_by(ks.len() / 80 + 1).copied().chain([c.bytes.len()]).collect() } else { ks };
             let variants: Vec<bool> = if c.app == read_all_respond() && !c.name.contains("chunked") && c.name != "cl-and-chunked" {
                 vec![false, true]
             } else {
@@ -96,7 +107,7 @@ fn items(tier: Tier) -> &'static Vec<Item> {
                 for &k in &ks {
                     for end in [EndKind::HalfClose, EndKind::Close, EndKind::Reset] {
                         for settle_first in [true, false] {
-                            if !settle_first && tier == Tier::Quick && k % 3 != 0 {
+                            if !settle_first && !full(tier) && k % 3 != 0 {
                                 continue;
                             }
                             v.push(Item::Prefix { conv: ci, unread, k, end, settle_first });
@@ -109,7 +120,7 @@ fn items(tier: Tier) -> &'static Vec<Item> {
         for (ki, (name, _, _)) in kinds.iter().enumerate() {
             let js: Vec<u64> = if name.contains("70000") {
                 vec![0, 1, 1024, 4096, 8192, 32768, 65536, 69999, 70100]
-            } else if tier == Tier::Thorough {
+            } else if full(tier) {
                 (0..=2048u64).chain([4096, 5200]).collect()
             } else {
                 (0..=2048u64).step_by(7).chain([1023, 1024, 1025, 4096, 5200]).collect()
@@ -295,9 +306,9 @@ impl Check for C15 {
     fn rule(&self, tier: Tier) -> String {
         format!(
             "(a) for each of the {} corpus conversations (and a respond-without-reading variant): {} prefix length k x {{half-close, close, reset}} x {{server quiescent before the client ends, client ends at once}}; (b) for each response kind {:?}: client gone after exactly j response bytes, j = {}, by close and by reset; client not reading (1 KiB window) then closing/resetting; client gone before the application answers; {} fault scenarios, each followed by a fresh connection that must be served; oracle: nothing incomplete is delivered, after an orderly close everything complete is delivered and answered (reference model), respond() returns Ok, body reads end (no hang), no panic",
-            the_corpus().len(), if tier == Tier::Thorough { "every" } else { "every syntactic-boundary (+-2) " },
+            the_corpus().len(), if full(tier) { "every" } else { "every syntactic-boundary (+-2) " },
             response_kinds().iter().map(|k| k.0).collect::<Vec<_>>(),
-            if tier == Tier::Thorough { "0..2048, 4096, 5200 (70000-byte bodies: 9 offsets up to 70100)" } else { "0..2048 step 7, 1023..1025, 4096, 5200" },
+            if full(tier) { "0..2048, 4096, 5200 (70000-byte bodies: 9 offsets up to 70100)" } else { "0..2048 step 7, 1023..1025, 4096, 5200" },
             items(tier).len()
         )
     }
